@@ -259,7 +259,7 @@ class DelAttrMethod(MethodDescriptor):
             # class would receive (evaluating default factories, and honouring
             # overrides on subclasses that are not themselves spec-classes).
             default = MISSING
-            if not force and attr_spec and not attr_spec.is_masked:
+            if attr_spec and not attr_spec.is_masked:
                 default = attr_spec.lookup_default_value(self.__class__)
 
             if default is MISSING:
